@@ -1,5 +1,6 @@
 import Firefly.Util
 import Firefly.Model.Vmm
+import Firefly.Model.MemUtil
 /-! Shared replay machinery of the vmm properties (C04, C05, C06): op interpreter for the model,
 canonical observation text, parser for the implementation's observation, and the software-MMU view
 of a memory dump that the oracles use (independent of the model's `mmu`). -/
@@ -255,5 +256,62 @@ def leaves (d : Dump) (root : Nat) : Option (List (Nat × Nat)) := Id.run do
 def lset (l : List (Nat × Nat)) (p e : Nat) : List (Nat × Nat) :=
   let l := l.filter (·.1 ≠ p)
   if entPresent e then ((p, e) :: l).toArray.qsort (fun a b => a.1 < b.1) |>.toList else l
+
+/-! ## kernel.Memset / kernel.Memcopy on a guarded host buffer -/
+open Firefly.MemUtil in
+def muN : Nat := 20736
+
+open Firefly.MemUtil in
+def muPattern (seed : Nat) : Bytes := fun i => BitVec.ofNat 8 (i * 7 + seed * 13 + i / 256)
+
+open Firefly.MemUtil in
+/-- hash of the whole buffer, number of bytes differing from the pattern, first / last such index -/
+def muObs (seed : Nat) (final : Bytes) : String := Id.run do
+  let mut h : BitVec 64 := 14695981039346656037#64
+  let mut nd := 0
+  let mut first := muN
+  let mut last := muN
+  for i in [0:muN] do
+    let b := final i
+    h := (h ^^^ BitVec.ofNat 64 b.toNat) * 1099511628211#64
+    if b != muPattern seed i then
+      nd := nd + 1
+      if first = muN then first := i
+      last := i
+  return s!"{h.toNat} {nd} {first} {last}"
+
+open Firefly.MemUtil in
+/-- observation of the model (the functions as written) -/
+def muModel (name : String) (op : List Nat) : String :=
+  match name, op with
+  | "memset", [seed, off, val, size] =>
+    match memset (muPattern seed) off (BitVec.ofNat 8 val) (BitVec.ofNat 64 size) with
+    | .done mem _ => muObs seed mem
+    | .hang => "hang"
+  | "memcopy", [seed, src, dst, size] => muObs seed (memcopy (muPattern seed) src dst (BitVec.ofNat 64 size))
+  | _, _ => "bad-op"
+
+open Firefly.MemUtil in
+/-- observation required by the specification: exactly `[off, off+size)` becomes `value` / the source -/
+def muSpec (name : String) (op : List Nat) : String :=
+  match name, op with
+  | "memset", [seed, off, val, size] =>
+    muObs seed (fun i => if off ≤ i ∧ i < off + size then BitVec.ofNat 8 val else muPattern seed i)
+  | "memcopy", [seed, src, dst, size] =>
+    muObs seed (fun i => if dst ≤ i ∧ i < dst + size then muPattern seed (src + (i - dst)) else muPattern seed i)
+  | _, _ => "bad-op"
+
+/-- handle a memset / memcopy trace line: (model mismatch?, failing clause?) -/
+def muLine (caseId opS obsS name : String) (op : List Nat) : IO (Nat × Nat) := do
+  let mut mm := 0
+  let mut pf := 0
+  let m := muModel name op
+  if m ≠ obsS.trimAscii.toString then
+    IO.println s!"MISMATCH case={caseId} op={opS} model={m} impl={obsS}"
+    mm := 1
+  if muSpec name op ≠ obsS.trimAscii.toString then
+    IO.println s!"PROPFAIL case={caseId} clause={if name = "memset" then "memset-fills" else "memcopy-copies"} feature=memutil op={opS} impl={obsS}"
+    pf := 1
+  return (mm, pf)
 
 end Firefly.Replay.Vmm
